@@ -9,6 +9,7 @@ import (
 	"math"
 	"strings"
 	"testing"
+	"time"
 
 	"github.com/beevik/etree"
 	saml2 "github.com/russellhaering/gosaml2"
@@ -733,6 +734,95 @@ func TestC09_GridOffsets(t *testing.T) {
 		}
 	}
 	h.RunCases(t, "C09.mutate", cases, checkC09)
+}
+
+// hostileValues: what an attribute or a text node that code may read as a number, a time, a URI or a flag can hold.
+var hostileValues = []string{"", " ", "-1", "-0", "+1", "-2147483649", "2147483648", "-9223372036854775808", "9223372036854775807", "4611686018427387904", "99999999999999999999",
+	"1e9", "0x7fffffff", "NaN", "true", "1", "2.0", "urn:x", "0001-01-01T00:00:00Z", "9999-12-31T23:59:59Z", "2030-03-01T12:00:00+99:99", strings.Repeat("9", 400), strings.Repeat("A", 9000)}
+
+// richBases: unsigned messages that carry EVERY optional element and attribute the decoders know.
+func richBases() []*etree.Document {
+	sp := h.BaseSP()
+	g := gridGenuine(sp, 2, "none")
+	for i := range g.Model.Assertions {
+		a := &g.Model.Assertions[i]
+		a.Audiences = [][]string{{sp.Audience, "urn:other"}, {sp.Audience}}
+		a.OneTimeUse, a.HasProxy, a.ProxyCount, a.ProxyAudience = true, true, h.S("2"), []string{"urn:p1", "urn:p2"}
+		a.HasAuthn, a.SessionIndex = true, h.S("_session")
+		a.AuthnInstant = h.S(sp.Now().UTC().Format(time.RFC3339))
+		a.SessionNotOnOrAfter = h.S(sp.Now().Add(time.Hour).UTC().Format(time.RFC3339))
+		a.ClassRef = h.S("urn:oasis:names:tc:SAML:2.0:ac:classes:Password")
+		a.SCInResponseTo, a.NameIDFormat = h.S("_req"), h.S("urn:oasis:names:tc:SAML:1.1:nameid-format:emailAddress")
+		a.Attrs = []h.AttrModel{{Name: "uid", Values: []string{"u", "v"}, FriendlyName: h.S("uid"), NameFormat: h.S("urn:oasis:names:tc:SAML:2.0:attrname-format:basic")}}
+	}
+	g.Model.InResponseTo, g.Model.StatusMsg, g.Model.SubCodes = h.S("_req"), h.S("fine"), []string{"urn:sub"}
+	var docs []*etree.Document
+	root, err := g.Tree()
+	if err != nil {
+		panic(err)
+	}
+	d := etree.NewDocument()
+	d.SetRoot(root)
+	docs = append(docs, d)
+	for _, kind := range []string{"LogoutRequest", "LogoutResponse"} {
+		li := &h.LogoutIssue{Model: h.PlainLogout(sp, kind), NS: h.NSStyle{P: "samlp", A: "saml"}}
+		r, err := li.Tree()
+		if err != nil {
+			panic(err)
+		}
+		d := etree.NewDocument()
+		d.SetRoot(r)
+		docs = append(docs, d)
+	}
+	return docs
+}
+
+// TestC09_GridValues: EVERY attribute and EVERY leaf text of the rich unsigned messages receives EVERY hostile
+// value, under the configurations that do not stop at the missing signature (skip) and one that does.
+func TestC09_GridValues(t *testing.T) {
+	var cases []C09Case
+	for bi, base := range richBases() {
+		var els []*etree.Element
+		var walk func(e *etree.Element)
+		walk = func(e *etree.Element) {
+			els = append(els, e)
+			for _, ch := range e.ChildElements() {
+				walk(ch)
+			}
+		}
+		walk(base.Root())
+		emit := func(kind string, i int) {
+			s, _ := base.WriteToString()
+			for _, cfg := range []int{3, 5, 1}[:2+i%2] {
+				cases = append(cases, C09Case{Kind: kind, Cfg: cfg, Input: base64.StdEncoding.EncodeToString([]byte(s)), Stage: fmt.Sprintf("base%d", bi)})
+			}
+		}
+		n := 0
+		for _, e := range els {
+			for ai := range e.Attr {
+				if e.Attr[ai].Space == "xmlns" || e.Attr[ai].Key == "xmlns" {
+					continue
+				}
+				old := e.Attr[ai].Value
+				for _, v := range hostileValues {
+					e.Attr[ai].Value = v
+					n++
+					emit("attr-value-grid", n)
+				}
+				e.Attr[ai].Value = old
+			}
+			if len(e.ChildElements()) == 0 {
+				old := e.Text()
+				for _, v := range hostileValues {
+					e.SetText(v)
+					n++
+					emit("text-value-grid", n)
+				}
+				e.SetText(old)
+			}
+		}
+	}
+	h.RunCases(t, "C09.tree", cases, checkC09)
 }
 
 // TestC09_GridCipher: every ciphertext length 0..80 under every data algorithm identifier, both in an
